@@ -21,7 +21,8 @@ static int lc(int c) { c &= 0xff; return (c >= 'A' && c <= 'Z') ? c + 32 : c; }
 int strcasecmp(const char *a, const char *b) { int i; for (i = 0; i < 10; i++) { int x = lc(a[i]), y = lc(b[i]); if (x != y) return x - y; if (x == 0) return 0; } return 0; }
 static const char *words[8] = { "BOUNDS", "Bound", "INTEGER", "int", "END", "general", "MAX", "PROBLEM" };
 static int seq, t_obj, t_con, t_bnd, t_int, t_rn, t_fb, r_obj, r_con, r_bnd, r_int, r_rn, r_fb, errors;
-static int w_at_bnd = -1, fc_at_bnd, eof_at_bnd, w_at_int = -1, fc_at_int, eof_at_int, w_at_end = -1, fc_at_end, eof_at_end, cur_w = -1;
+static int w_at_bnd = -1, fc_at_bnd, eof_at_bnd, w_at_int = -1, fc_at_int, eof_at_int, cur_w = -1;
+static int fc_now, eof_now, w_after_con = -1, fc_after_con, eof_after_con, w_after_bnd = -1, fc_after_bnd, eof_after_bnd;
 static void next_word(mpq_ILLread_lp_state *st)
 {	int k = nondet_int(), i; ASSUME(0 <= k && k <= 7);
 	for (i = 0; i < 9; i++) { st->field[i] = words[k][i]; if (words[k][i] == 0) break; }
@@ -36,9 +37,11 @@ int mpq_ILLlp_error(mpq_ILLread_lp_state *st, const char *format, ...) { errors+
 void mpq_ILLlp_warn(mpq_ILLread_lp_state *st, const char *format, ...) { }
 int __CPROVER_file_local_lp_mpq_c_read_objective(mpq_ILLread_lp_state *st, mpq_rawlpdata *lp) { t_obj = ++seq; r_obj = nondet_bool(); return r_obj; }
 int __CPROVER_file_local_lp_mpq_c_read_constraints(mpq_ILLread_lp_state *st, mpq_rawlpdata *lp, int allowNew)
-{ t_con = ++seq; r_con = nondet_bool(); lp->ncols = nondet_bool(); lp->nrows = nondet_bool(); next_word(st); return r_con; }
-int __CPROVER_file_local_lp_mpq_c_read_bounds(mpq_ILLread_lp_state *st, mpq_rawlpdata *lp) { t_bnd = ++seq; r_bnd = nondet_bool(); next_word(st); return r_bnd; }
-int __CPROVER_file_local_lp_mpq_c_read_integer(mpq_ILLread_lp_state *st, mpq_rawlpdata *lp) { t_int = ++seq; r_int = nondet_bool(); next_word(st); return r_int; }
+{ t_con = ++seq; r_con = nondet_bool(); lp->ncols = nondet_bool(); lp->nrows = nondet_bool(); next_word(st); w_after_con = cur_w; fc_after_con = st->fieldOnFirstCol; eof_after_con = st->eof; return r_con; }
+int __CPROVER_file_local_lp_mpq_c_read_bounds(mpq_ILLread_lp_state *st, mpq_rawlpdata *lp)
+{ t_bnd = ++seq; w_at_bnd = cur_w; fc_at_bnd = st->fieldOnFirstCol; eof_at_bnd = st->eof; r_bnd = nondet_bool(); next_word(st); w_after_bnd = cur_w; fc_after_bnd = st->fieldOnFirstCol; eof_after_bnd = st->eof; return r_bnd; }
+int __CPROVER_file_local_lp_mpq_c_read_integer(mpq_ILLread_lp_state *st, mpq_rawlpdata *lp)
+{ t_int = ++seq; w_at_int = cur_w; fc_at_int = st->fieldOnFirstCol; eof_at_int = st->eof; r_int = nondet_bool(); next_word(st); return r_int; }
 int mpq_ILLraw_fill_in_rownames(mpq_rawlpdata *lp) { t_rn = ++seq; r_rn = nondet_bool(); return r_rn; }
 int mpq_ILLraw_fill_in_bounds(mpq_rawlpdata *lp) { t_fb = ++seq; r_fb = nondet_bool(); return r_fb; }
 /* the real keyword test is wrapped to record the word the decision was taken on */
@@ -53,6 +56,13 @@ void harness(void)
 	ASSERT(qsv_gmp_live == live0, "C18: the reader's own temporary number is released exactly once on every path");
 	ASSERT(!(t_con && !(t_obj && r_obj == 0 && t_obj < t_con)), "C10: the constraints are read after a successfully read objective");
 	ASSERT(!(t_bnd && !(t_con && r_con == 0 && t_con < t_bnd)) && !(t_int && !(t_con && r_con == 0 && t_con < t_int && (!t_bnd || (t_bnd < t_int && r_bnd == 0)))), "C10: bounds come after the constraints, the integer list after the bounds, each only after the sections before it succeeded");
+	if (t_bnd) ASSERT((w_at_bnd == 0 || w_at_bnd == 1) && fc_at_bnd && !eof_at_bnd, "C10: the bounds section is entered only for BOUNDS / BOUND (any letter case) at the beginning of a line");
+	if (t_int) ASSERT((w_at_int == 2 || w_at_int == 3) && fc_at_int && !eof_at_int, "C10: the integer section is entered only for INTEGER / INT (any letter case) at the beginning of a line");
+	if (t_con && r_con == 0 && raw.ncols > 0 && raw.nrows > 0) {
+		if ((w_after_con == 0 || w_after_con == 1) && fc_after_con && !eof_after_con) ASSERT(t_bnd, "C10: BOUNDS / Bound after the constraints opens the bounds section");
+		if (!t_bnd && (w_after_con == 2 || w_after_con == 3) && fc_after_con && !eof_after_con) ASSERT(t_int, "C10: INTEGER / int after the constraints opens the integer section");
+		if (t_bnd && r_bnd == 0 && (w_after_bnd == 2 || w_after_bnd == 3) && fc_after_bnd && !eof_after_bnd) ASSERT(t_int, "C10: INTEGER / int after the bounds opens the integer section");
+	}
 	if (rv == 0) {
 		ASSERT(t_obj && t_con && r_obj == 0 && r_con == 0 && raw.ncols > 0 && raw.nrows > 0 && (!t_bnd || r_bnd == 0) && (!t_int || r_int == 0), "C11: accepted only if every section entered succeeded and there is at least one row and one column");
 		ASSERT(cur_w == 4, "C10/C11: accepted only if the word after the last section is END");
